@@ -2,12 +2,15 @@ package refs
 
 import (
 	"database/sql"
+	"errors"
+	"syscall"
 	"encoding/json"
 	"fmt"
 	"io"
 	"os"
 	"reflect"
 	"sort"
+	"strings"
 
 	"github.com/wrgl/wrgl/pkg/ref"
 	reffs "github.com/wrgl/wrgl/pkg/ref/fs"
@@ -19,7 +22,7 @@ import (
 // plus whatever the scenario mentions).
 var Universe = []string{
 	"heads/a_b", "heads/aXb", "heads/A_b", "heads/a%b",
-	"remotes/o/x", "remotes/oo/x", "remotes/o_/x", "remotes/o/y",
+	"remotes/o/x", "remotes/oo/x", "remotes/o_/x", "remotes/o/y", "remotes/o/x/y",
 }
 
 type Op struct {
@@ -109,6 +112,10 @@ func ReadLog(s ref.Store, name string) (log [][2]int, ok bool, err error) {
 			break
 		}
 		if err != nil {
+			if errors.Is(err, syscall.EISDIR) {
+				// file store: an emptied directory left under logs/ is not a log
+				return nil, false, nil
+			}
 			return nil, false, err
 		}
 		log = append(log, [2]int{Val(rl.OldOID), Val(rl.NewOID)})
@@ -383,6 +390,30 @@ func Replay(i int, raw []byte) child.Result {
 		if o.M != "" {
 			uni = append(uni, o.M)
 		}
+	}
+	if fsMode {
+		// in a file store a name that is a path prefix of a stored name is a directory: it cannot be probed as a ref
+		// (nor can both be stored: RefsGen!FsStep does not judge such paths)
+		var keep []string
+		for _, n := range uni {
+			dir := false
+			for _, o := range sc.Path {
+				for _, m := range []string{o.N, o.M} {
+					if strings.HasPrefix(m, n+"/") {
+						dir = true
+					}
+				}
+			}
+			for _, pr := range sc.Post.Refs {
+				if m, ok := pr[0].(string); ok && strings.HasPrefix(m, n+"/") {
+					dir = true
+				}
+			}
+			if !dir {
+				keep = append(keep, n)
+			}
+		}
+		uni = keep
 	}
 	obs, err := Observe(s, uni)
 	if err != nil {
